@@ -116,9 +116,31 @@ def run(ctx):
         mods = [spoil(m["seq"]) for m in ch["modules"]]
         if rng.random() < 0.3:
             mods.append(spoil(rng.choice(ch["modules"])["seq"]))
+        # valid bystanders that fit nowhere (several unused modules in one warning)
+        spare = []
+        if rng.random() < 0.35:
+            used = {m["up"] for m in ch["modules"]} | {gens.rc(m["up"]) for m in ch["modules"]} | {ch["vector"]["up"], ch["vector"]["down"]}
+            for _ in range(rng.choice([2, 2, 3])):
+                ohs = gens.distinct_overhangs(rng, enz, 2)
+                if ohs and ohs[0] not in used and gens.rc(ohs[0]) not in used:
+                    b = gens.gen_module(rng, enz, ohs[0], ohs[1], 3, 2)
+                    if b:
+                        spare.append(b["seq"])
+                        used |= {ohs[0], gens.rc(ohs[0])}
+        mods += spare
         rng.shuffle(mods)
+        # record identifiers: distinct, all alike, or absent (Biopython's defaults)
+        idmode = rng.choice(["distinct", "distinct", "same", "none"])
+
+        def elem(s):
+            d = {"cls": gens.generic_spec("module", enz), "seq": s}
+            if idmode == "same":
+                d["id"] = "Exported"
+            elif idmode == "none":
+                d["id"] = None
+            return d
         acases.append({"enz": enz["name"], "vector": {"cls": gens.generic_spec("vector", enz), "seq": spoil(ch["vector"]["seq"])},
-                       "modules": [{"cls": gens.generic_spec("module", enz), "seq": s} for s in mods]})
+                       "modules": [elem(s) for s in mods]})
     aobs = common.run_impl(ctx, "C17", "impl_assembly", acases)
     aterms = []
     for c, o in zip(acases, aobs):
